@@ -64,7 +64,7 @@ fn fingerprint(bank: &Bank, c: &SwapCall, ix: &Ix, out: &TxOutcome, spacing: u16
 }
 
 /// swap_v2 with supplemental tick arrays appended as remaining accounts.
-fn with_supplemental(ix: &Ix, extra: &[Pubkey]) -> Ix {
+pub fn with_supplemental(ix: &Ix, extra: &[Pubkey]) -> Ix {
     let mut i = ix.clone();
     if extra.is_empty() {
         return i;
@@ -303,6 +303,11 @@ impl Monitor for C10 {
             a[w.r.gen_range(0..3)] = o;
             foreign_ix = Some(set_arrays(&obs.ix, a));
         }
+        // (g') ... also when it hides among the supplemental arrays behind the three arrays of the path
+        let mut foreign_sup: Option<Ix> = None;
+        if let (Some(o), true) = (other_pool_array, c.v2) {
+            foreign_sup = Some(with_supplemental(&obs.ix, &if w.r.gen() { vec![o] } else { vec![canon_arrays[1], o, canon_arrays[2]] }));
+        }
         for (name, bank, ixv, must_equal) in variants {
             let (out, b2) = w.simulate(&bank, &ixv);
             acc.count("packaging_variants_run");
@@ -342,6 +347,13 @@ impl Monitor for C10 {
             acc.count("foreign_array_probes");
             if out.ok() {
                 fail(acc, "foreign_array_accepted", "a tick array of another pool was accepted".into());
+            }
+        }
+        if let Some(fx) = foreign_sup {
+            let (out, _) = w.simulate(&obs.pre, &fx);
+            acc.count("foreign_supplemental_array_probes");
+            if out.ok() {
+                fail(acc, "foreign_supplemental_array_accepted", "a tick array of another pool was accepted among the supplemental tick arrays".into());
             }
         }
         acc.situation(format!("tr:{}:{}:x{}:arr{}:sh{}", obs.ix.name, c.a_to_b, super::bucket(crossed.len()), visited.len(), shifted_start));
